@@ -232,7 +232,7 @@ def run_harness(ctx, bins, root, name, sources_path, workers, budget_ms, batch, 
         ctx.log("  " + l[:300])
     if len(notes) > 12:
         ctx.log("  ... %d more harness notes" % (len(notes) - 12))
-    return ev, json.load(open(fails)), json.load(open(stats))
+    return ev, (json.load(open(fails)) or []), json.load(open(stats))
 
 
 def validate(ctx, name, ev_path):
@@ -363,7 +363,11 @@ def run(ctx, only_sources=None):
     for ex in exps:
         cid = json.dumps(ex.context, sort_keys=True)
         cid = contexts.setdefault(cid, "c%d" % len(contexts))
-        for o, toks in ex.tokens:
+        toklist = ex.tokens
+        if not th and ex.label.startswith("adj2-") and len(toklist) > 3500:
+            # quick tier: a seeded sample of the token-pair adjacency set (the thorough tier runs all of it)
+            toklist = ctx.rng.sample(sorted(toklist), 3500)
+        for o, toks in toklist:
             key = cid + "\x00" + "\x00".join(toks)
             if key not in seen:
                 seen.add(key)
